@@ -29,12 +29,12 @@ fn check_case(ctx: &Ctx, prog: &T, env: &T, base: ClvmFlags, limit_sweep: bool, 
         clvmr::verif::set_cost_log(false);
         let on = l.run_flags(base | ClvmFlags::ENABLE_GC, 0);
         acc.add("runs", 2);
+        if off.allocated != on.allocated {
+            acc.inc("restore_happened");
+        }
         if let Some(m) = compare(&off, &on) {
             acc.violation(canon(0, unlimited), format!("[{space}] {m}"));
             return (None, 0);
-        }
-        if off.allocated != on.allocated {
-            acc.inc("restore_happened");
         }
         if !off.ok {
             return (None, off.counts.2);
@@ -140,7 +140,7 @@ pub fn run(ctx: &Ctx) -> Report {
         rep.absorb(acc);
     }
     rep.note("spaces", json!(notes));
-    if rep.acc.get("restore_happened") == 0 {
+    if rep.acc.get("restore_happened") == 0 && rep.acc.violation_count == 0 {
         rep.machinery("no explored program triggered an allocator restore: the exploration would be vacuous".into());
     }
     rep.evaluations = rep.acc.get("runs");
